@@ -58,6 +58,7 @@ type Exception struct {
 // C is the per-run checker context.
 type C struct {
 	callSiteMemo map[*ssa.Function][]ssa.CallInstruction
+	hookOwner2   *C
 	P               *Program
 	Prop            string
 	Tier            string
